@@ -1172,6 +1172,66 @@ def outcome_inner(r):
     return ",".join(sorted(err_codes(r.retval)))
 
 
+# ---- predicates of f32 / f64 on concrete floats ---------------------------------------------------------------------------
+import math as _math
+
+
+def _float_arg(eng, st, v):
+    v = eng.resolve(st, v)
+    n = 0
+    while isinstance(v, RefV) and n < 4:
+        v = eng.resolve(st, fdai.load(fdai.Loc(v.cell, v.path)))
+        n += 1
+    return v if fdai.is_float(v) else None
+
+
+def _fp_category(x, width):
+    if x != x:
+        return "Nan", 0
+    if _math.isinf(x):
+        return "Infinite", 1
+    if x == 0:
+        return "Zero", 2
+    tiny = 2.2250738585072014e-308 if width == 64 else 1.1754943508222875e-38
+    return ("Subnormal", 3) if abs(x) < tiny else ("Normal", 4)
+
+
+def m_float_pred(kind):
+    def model(eng, st, fr, t, name, rname, args):
+        v = _float_arg(eng, st, args[0]) if args else None
+        if v is None:
+            return NotImplemented
+        x, w = fdai.float_of(v), int(v.fields[1].v)
+        cat = _fp_category(x, w)
+        if kind == "is_nan":
+            return K(x != x)
+        if kind == "is_infinite":
+            return K(_math.isinf(x))
+        if kind == "is_finite":
+            return K(not (_math.isinf(x) or x != x))
+        if kind == "is_sign_negative":
+            return K(_math.copysign(1.0, x) < 0)
+        if kind == "is_sign_positive":
+            return K(_math.copysign(1.0, x) > 0)
+        if kind == "is_normal":
+            return K(cat[0] == "Normal")
+        if kind == "is_subnormal":
+            return K(cat[0] == "Subnormal")
+        if kind == "classify":
+            return EnumV("core::num::FpCategory", cat[0], cat[1], {})
+        if kind == "abs":
+            return fdai.mk_float(abs(x), w)
+        return NotImplemented
+    return model
+
+
+FLOAT_MODELS = {}
+for _w in ("f32", "f64"):
+    for _k in ("is_nan", "is_infinite", "is_finite", "is_sign_negative", "is_sign_positive", "is_normal", "is_subnormal", "classify", "abs"):
+        FLOAT_MODELS["core::%s::%s" % (_w, _k)] = m_float_pred(_k)
+        FLOAT_MODELS["std::%s::%s" % (_w, _k)] = m_float_pred(_k)
+
+
 # ---- generic item-sequence iterator models (sa/itermodels.py) ------------------------------------------------------
 def _install_itermodels():
     import sys
